@@ -463,7 +463,7 @@ func main() {
 	}
 	var b strings.Builder
 	b.WriteString("(* GENERATED by translate/gen_goroutines_writer from " + "$VERIF_REPO/writer" + " -- do not edit, not committed *)\n")
-	b.WriteString("From Coq Require Import List String ZArith.\nFrom Qryn Require Import model.IngestRobust.\nImport ListNotations.\nOpen Scope string_scope.\nOpen Scope Z_scope.\n\n")
+	b.WriteString("From Coq Require Import List String ZArith.\nFrom Qryn Require Import model.IngestRobust model.IngestPipe.\nImport ListNotations.\nOpen Scope string_scope.\nOpen Scope Z_scope.\n\n")
 	b.WriteString("Definition gen_goroutines : list goroutine := [\n")
 	for i, g := range gs {
 		sep := ";"
@@ -505,6 +505,7 @@ func main() {
 		}
 	}
 	b.WriteString("].\n")
+	writePipe(&b, root, files, parsed)
 	// side file for the harness: the literal texts that status-deciding code compares error texts with
 	if js, err := json.Marshal(map[string]interface{}{"phrases": phrases}); err == nil {
 		os.WriteFile(strings.TrimSuffix(outPath, ".v")+".json", js, 0644)
@@ -576,4 +577,578 @@ func collect(n ast.Node, rel, fn string, ord *int, gs *[]goroutine) {
 		*gs = append(*gs, e)
 		return true
 	})
+}
+
+
+// ---------------------------------------------------------------------------------------------------------
+// Second part (model/IngestPipe.v): goroutine programs, tamePanic, the consumer doParse, onSpan at column level,
+// struct fields / consumed columns, route tables.
+
+func isCloseRes(c *ast.CallExpr) bool {
+	id, ok := c.Fun.(*ast.Ident)
+	return ok && id.Name == "close" && len(c.Args) == 1 && strings.HasSuffix(exprString(c.Args[0]), "res")
+}
+
+// the value sent on the channel: &model.ParserResponse{...}
+func sendKind(v ast.Expr) string {
+	u, ok := v.(*ast.UnaryExpr)
+	if !ok || u.Op != token.AND {
+		return "GUnknown"
+	}
+	cl, ok := u.X.(*ast.CompositeLit)
+	if !ok || !strings.HasSuffix(exprString(cl.Type), "ParserResponse") {
+		return "GUnknown"
+	}
+	for _, e := range cl.Elts {
+		kv, ok := e.(*ast.KeyValueExpr)
+		if !ok {
+			return "GUnknown"
+		}
+		if exprString(kv.Key) == "Error" {
+			if id, ok := kv.Value.(*ast.Ident); ok && id.Name == "err" {
+				return "GSendErr"
+			}
+			if c, ok := kv.Value.(*ast.CallExpr); ok && calleeName(c.Fun) == "Errorf" && len(c.Args) >= 1 {
+				if lit, ok := c.Args[0].(*ast.BasicLit); ok && strings.HasPrefix(unquote(lit.Value), "panic:") {
+					return "GSendPanic"
+				}
+			}
+			return "GUnknown"
+		}
+	}
+	if len(cl.Elts) == 0 {
+		return "GUnknown"
+	}
+	return "GSendBatch"
+}
+
+func isSendOnRes(st ast.Stmt) (string, bool) {
+	s, ok := st.(*ast.SendStmt)
+	if !ok || !strings.HasSuffix(exprString(s.Chan), "res") {
+		return "", false
+	}
+	return sendKind(s.Value), true
+}
+
+// one statement of a goroutine body that has no nested block (or the `if len(..) > 0 { send }` form)
+func simpleStmt(st ast.Stmt) (string, bool) {
+	if k, ok := isSendOnRes(st); ok {
+		return k, true
+	}
+	switch s := st.(type) {
+	case *ast.ReturnStmt:
+		if len(s.Results) == 0 {
+			return "GReturn", true
+		}
+	case *ast.AssignStmt:
+		if len(s.Rhs) == 1 && len(s.Lhs) == 1 && exprString(s.Lhs[0]) == "err" {
+			if c, ok := s.Rhs[0].(*ast.CallExpr); ok && calleeName(c.Fun) == "Decode" && len(c.Args) == 0 {
+				return "GDecode", true
+			}
+		}
+	case *ast.ExprStmt:
+		if c, ok := s.X.(*ast.CallExpr); ok {
+			if isCloseRes(c) {
+				return "GClose", true
+			}
+			switch exprString(c.Fun) {
+			case "p.tsSpl.flush":
+				return "GFlush", true
+			case "p.tsSpl.reset":
+				return "GReset", true
+			}
+			if sel, ok := c.Fun.(*ast.SelectorExpr); ok {
+				if id, ok := sel.X.(*ast.Ident); ok && id.Name == "logger" {
+					return "", true // logging: no effect on the protocol
+				}
+			}
+			if id, ok := c.Fun.(*ast.Ident); ok && id.Name == "recover" {
+				return "", true // a bare recover() call outside a deferred frame's top level: returns nil
+			}
+		}
+	case *ast.IfStmt:
+		// if len(<x>) > 0 { p.res <- &ParserResponse{<batch>} }
+		if be, ok := s.Cond.(*ast.BinaryExpr); ok && s.Init == nil && s.Else == nil && be.Op == token.GTR &&
+			strings.HasPrefix(exprString(be.X), "len(") && exprString(be.Y) == "0" && len(s.Body.List) == 1 {
+			if k, ok := isSendOnRes(s.Body.List[0]); ok && k == "GSendBatch" {
+				return "GSendBatchIfRows", true
+			}
+		}
+	}
+	return "GUnknown", true
+}
+
+func simpleList(list []ast.Stmt) string {
+	var out []string
+	for _, st := range list {
+		k, _ := simpleStmt(st)
+		if k != "" {
+			out = append(out, k)
+		}
+	}
+	return "[" + strings.Join(out, "; ") + "]"
+}
+
+// a `go func() {...}()` literal of utils/unmarshal/builder.go as a gprog
+func goProgram(lit *ast.FuncLit) string {
+	var defers, body []string
+	for _, st := range lit.Body.List {
+		switch s := st.(type) {
+		case *ast.DeferStmt:
+			if calleeName(s.Call.Fun) == "tamePanic" {
+				defers = append(defers, "DTame")
+			} else if isCloseRes(s.Call) {
+				defers = append(defers, "DPlain GClose")
+			} else {
+				defers = append(defers, "DPlain GUnknown")
+			}
+			continue
+		case *ast.IfStmt:
+			if s.Init == nil && s.Else == nil && exprString(s.Cond) == "err != nil" {
+				body = append(body, "GIfErr "+simpleList(s.Body.List))
+				continue
+			}
+		}
+		k, _ := simpleStmt(st)
+		if k != "" {
+			body = append(body, "GS "+k)
+		}
+	}
+	return "{| gp_defers := [" + strings.Join(defers, "; ") + "]; gp_body := [" + strings.Join(body, "; ") + "] |}"
+}
+
+func isRangeOverRes(st ast.Stmt) (*ast.RangeStmt, bool) {
+	r, ok := st.(*ast.RangeStmt)
+	if !ok {
+		return nil, false
+	}
+	id, ok := r.X.(*ast.Ident)
+	return r, ok && id.Name == "res"
+}
+
+// controller/builder.go doParse: the receive loop and its early returns
+func translateConsumer(fd *ast.FuncDecl) string {
+	ranges := false
+	early, drained := 0, 0
+	var loop *ast.RangeStmt
+	for _, st := range fd.Body.List {
+		if r, ok := isRangeOverRes(st); ok {
+			ranges = true
+			loop = r
+		}
+	}
+	if loop != nil {
+		var walk func(list []ast.Stmt)
+		walk = func(list []ast.Stmt) {
+			for i, st := range list {
+				switch s := st.(type) {
+				case *ast.ReturnStmt:
+					early++
+					if i > 0 {
+						if g, ok := list[i-1].(*ast.GoStmt); ok {
+							if lit, ok := g.Call.Fun.(*ast.FuncLit); ok && len(lit.Body.List) == 1 {
+								if r, ok := isRangeOverRes(lit.Body.List[0]); ok && len(r.Body.List) == 0 {
+									drained++
+								}
+							}
+						}
+					}
+				case *ast.IfStmt:
+					walk(s.Body.List)
+					if b, ok := s.Else.(*ast.BlockStmt); ok {
+						walk(b.List)
+					}
+				case *ast.BlockStmt:
+					walk(s.List)
+				case *ast.ForStmt:
+					walk(s.Body.List)
+				case *ast.RangeStmt:
+					walk(s.Body.List)
+				case *ast.SwitchStmt:
+					for _, c := range s.Body.List {
+						walk(c.(*ast.CaseClause).Body)
+					}
+				}
+			}
+		}
+		walk(loop.Body.List)
+	}
+	return fmt.Sprintf("{| cs_ranges := %v; cs_early_returns := %d; cs_drained_returns := %d |}", ranges, early, drained)
+}
+
+// onSpan at column level
+type colHandler struct {
+	width   bool
+	once    []string
+	loop    []string
+	flush   bool
+	unknown int
+}
+
+func colStmt(st ast.Stmt, h *colHandler, into *[]string) {
+	tblOf := func(e string) string {
+		switch {
+		case strings.HasPrefix(e, "p.spans."):
+			return "TSpans"
+		case strings.HasPrefix(e, "p.attrs."):
+			return "TAttrs"
+		}
+		return ""
+	}
+	if as, ok := st.(*ast.AssignStmt); ok && len(as.Lhs) == 1 && len(as.Rhs) == 1 {
+		lhs := exprString(as.Lhs[0])
+		t := tblOf(lhs)
+		field := lhs[strings.LastIndex(lhs, ".")+1:]
+		idx := strings.Contains(exprString(as.Rhs[0]), "val[")
+		if t != "" && as.Tok == token.ASSIGN {
+			if c, ok := as.Rhs[0].(*ast.CallExpr); ok && calleeName(c.Fun) == "append" && len(c.Args) == 2 && exprString(c.Args[0]) == lhs && c.Ellipsis == token.NoPos {
+				*into = append(*into, fmt.Sprintf("CApp %s %s %v", t, q(field), idx))
+				return
+			}
+		}
+		if t != "" && as.Tok == token.ADD_ASSIGN && field == "Size" {
+			*into = append(*into, fmt.Sprintf("CSize %s %v", t, idx))
+			return
+		}
+	}
+	h.unknown++
+}
+
+func translateOnSpan(fd *ast.FuncDecl) colHandler {
+	var h colHandler
+	for i, st := range fd.Body.List {
+		switch s := st.(type) {
+		case *ast.IfStmt:
+			c := strings.ReplaceAll(exprString(s.Cond), " ", "")
+			if i == 0 && strings.Contains(c, "len(traceId)!=16") && strings.Contains(c, "len(spanId)!=8") && strings.Contains(c, "||") {
+				for _, b := range s.Body.List {
+					if r, ok := b.(*ast.ReturnStmt); ok && len(r.Results) == 1 && exprString(r.Results[0]) != "nil" {
+						h.width = true
+					}
+				}
+				continue
+			}
+			if strings.Contains(c, "1*1024*1024") || strings.Contains(c, "1048576") {
+				sends, resets := false, false
+				for _, b := range s.Body.List {
+					if k, ok := isSendOnRes(b); ok && k == "GSendBatch" {
+						sends = true
+					}
+					if e, ok := b.(*ast.ExprStmt); ok && exprString(e.X) == "p.resetSpans()" {
+						resets = true
+					}
+				}
+				h.flush = sends && resets
+				continue
+			}
+			h.unknown++
+		case *ast.RangeStmt:
+			if exprString(s.X) == "key" && s.Key != nil && exprString(s.Key) == "i" {
+				for _, b := range s.Body.List {
+					colStmt(b, &h, &h.loop)
+				}
+				continue
+			}
+			h.unknown++
+		case *ast.ReturnStmt:
+			// the final `return nil`
+		default:
+			colStmt(st, &h, &h.once)
+		}
+	}
+	return h
+}
+
+func sliceFields(files map[string]*ast.File, typeName string) []string {
+	var out []string
+	var keys []string
+	for k := range files {
+		keys = append(keys, k)
+	}
+	sort.Strings(keys)
+	for _, k := range keys {
+		if !strings.Contains(k, "/writer/model/") {
+			continue
+		}
+		ast.Inspect(files[k], func(n ast.Node) bool {
+			ts, ok := n.(*ast.TypeSpec)
+			if !ok || ts.Name.Name != typeName {
+				return true
+			}
+			if stt, ok := ts.Type.(*ast.StructType); ok {
+				for _, f := range stt.Fields.List {
+					if at, ok := f.Type.(*ast.ArrayType); ok && at.Len == nil {
+						for _, n := range f.Names {
+							out = append(out, n.Name)
+						}
+					}
+				}
+			}
+			return false
+		})
+	}
+	return out
+}
+
+// fields of the request read by the ProcessRequest closure that type-asserts v2.(*model.<typeName>)
+func consumedFields(f *ast.File, typeName string) []string {
+	var out []string
+	seen := map[string]bool{}
+	ast.Inspect(f, func(n ast.Node) bool {
+		lit, ok := n.(*ast.FuncLit)
+		if !ok {
+			return true
+		}
+		v := ""
+		for _, st := range lit.Body.List {
+			if as, ok := st.(*ast.AssignStmt); ok && len(as.Rhs) == 1 && len(as.Lhs) == 2 {
+				if ta, ok := as.Rhs[0].(*ast.TypeAssertExpr); ok && ta.Type != nil && strings.HasSuffix(exprString(ta.Type), "model."+typeName) {
+					v = exprString(as.Lhs[0])
+				}
+			}
+		}
+		if v == "" {
+			return true
+		}
+		ast.Inspect(lit.Body, func(m ast.Node) bool {
+			if sel, ok := m.(*ast.SelectorExpr); ok {
+				if id, ok := sel.X.(*ast.Ident); ok && id.Name == v && !seen[sel.Sel.Name] {
+					seen[sel.Sel.Name] = true
+					out = append(out, sel.Sel.Name)
+				}
+			}
+			return true
+		})
+		return false
+	})
+	return out
+}
+
+func strList(xs []string) string {
+	var o []string
+	for _, x := range xs {
+		o = append(o, q(x))
+	}
+	return "[" + strings.Join(o, "; ") + "]"
+}
+
+type routeT struct {
+	handler string
+	pre     []string
+	parsers [][2]string
+	nested  [][2]string
+	status  int64
+}
+
+func parserName(e ast.Expr) string {
+	// Parser(unmarshal.X)
+	if c, ok := e.(*ast.CallExpr); ok && len(c.Args) == 1 {
+		return calleeName(c.Args[0])
+	}
+	return "?" + exprString(e)
+}
+
+func strArg(e ast.Expr) string {
+	if lit, ok := e.(*ast.BasicLit); ok && lit.Kind == token.STRING {
+		return unquote(lit.Value)
+	}
+	return "?" + exprString(e)
+}
+
+func optionName(e ast.Expr) string {
+	switch x := e.(type) {
+	case *ast.Ident:
+		return x.Name
+	case *ast.CallExpr:
+		return calleeName(x.Fun)
+	}
+	return "?" + exprString(e)
+}
+
+func statusOf(e ast.Expr) int64 {
+	if s, ok := e.(*ast.SelectorExpr); ok {
+		if v, ok := httpStatus[s.Sel.Name]; ok {
+			return v
+		}
+	}
+	if v, ok := constInt(e); ok {
+		return v
+	}
+	return -1
+}
+
+// func X(cfg MiddlewareConfig) ... { return Build(append(cfg.ExtraMiddleware, <options>)...) }
+func translateRoute(fd *ast.FuncDecl) (routeT, bool) {
+	rt := routeT{handler: fd.Name.Name, status: -1}
+	if fd.Body == nil || len(fd.Body.List) == 0 {
+		return rt, false
+	}
+	ret, ok := fd.Body.List[len(fd.Body.List)-1].(*ast.ReturnStmt)
+	if !ok || len(ret.Results) != 1 {
+		return rt, false
+	}
+	b, ok := ret.Results[0].(*ast.CallExpr)
+	if !ok || calleeName(b.Fun) != "Build" || len(b.Args) != 1 {
+		return rt, false
+	}
+	ap, ok := b.Args[0].(*ast.CallExpr)
+	if !ok || calleeName(ap.Fun) != "append" || len(ap.Args) < 1 || exprString(ap.Args[0]) != "cfg.ExtraMiddleware" {
+		return rt, false
+	}
+	for _, o := range ap.Args[1:] {
+		name := optionName(o)
+		c, _ := o.(*ast.CallExpr)
+		switch name {
+		case "withSimpleParser":
+			rt.parsers = append(rt.parsers, [2]string{strArg(c.Args[0]), parserName(c.Args[1])})
+		case "withComplexParser":
+			ct := strArg(c.Args[0])
+			rt.parsers = append(rt.parsers, [2]string{ct, parserName(c.Args[1])})
+			for _, n := range c.Args[2:] {
+				rt.nested = append(rt.nested, [2]string{ct, optionName(n)})
+			}
+		case "withOkStatusAndBody", "withOkStatusAndJSONBody":
+			rt.status = statusOf(c.Args[0])
+		case "withPostRequest":
+			if wh := findCall(c, "WriteHeader"); wh != nil && len(wh.Args) == 1 {
+				rt.status = statusOf(wh.Args[0])
+			}
+		default:
+			rt.pre = append(rt.pre, name)
+		}
+	}
+	return rt, true
+}
+
+func pairList(xs [][2]string) string {
+	var o []string
+	for _, x := range xs {
+		o = append(o, "("+q(x[0])+", "+q(x[1])+")")
+	}
+	return "[" + strings.Join(o, "; ") + "]"
+}
+
+func writePipe(b *strings.Builder, root string, files []string, parsed map[string]*ast.File) {
+	var progs []string
+	tame := "[GUnknown]"
+	tameGuarded := false
+	consumer := "{| cs_ranges := false; cs_early_returns := 0; cs_drained_returns := 0 |}"
+	var h colHandler
+	h.unknown = -1
+	var routes []routeT
+	var paths []string
+	ffaGuard := false
+	var consS, consA []string
+	for _, p := range files {
+		f := parsed[p]
+		rel, _ := filepath.Rel(root, p)
+		for _, d := range f.Decls {
+			fd, ok := d.(*ast.FuncDecl)
+			if !ok || fd.Body == nil {
+				continue
+			}
+			if rel == "utils/unmarshal/builder.go" {
+				ast.Inspect(fd.Body, func(n ast.Node) bool {
+					if g, ok := n.(*ast.GoStmt); ok {
+						if lit, ok := g.Call.Fun.(*ast.FuncLit); ok {
+							progs = append(progs, "("+q(recvName(fd))+", "+goProgram(lit)+")")
+						}
+					}
+					return true
+				})
+				if fd.Name.Name == "tamePanic" {
+					if len(fd.Body.List) == 1 {
+						if is, ok := fd.Body.List[0].(*ast.IfStmt); ok && is.Else == nil && is.Init != nil &&
+							strings.Contains(exprString(is.Cond), "!= nil") {
+							if as, ok := is.Init.(*ast.AssignStmt); ok && len(as.Rhs) == 1 && exprString(as.Rhs[0]) == "recover()" {
+								tameGuarded = true
+								tame = simpleList(is.Body.List)
+							}
+						}
+					}
+				}
+				if fd.Name.Name == "onSpan" {
+					h = translateOnSpan(fd)
+				}
+			}
+			if rel == "utils/unmarshal/shared.go" && fd.Name.Name == "fastFillArray" {
+				// `if len == 0 { return res }` before res[0] = val
+				for _, st := range fd.Body.List {
+					if is, ok := st.(*ast.IfStmt); ok && exprString(is.Cond) == "len == 0" {
+						for _, x := range is.Body.List {
+							if _, ok := x.(*ast.ReturnStmt); ok {
+								ffaGuard = true
+							}
+						}
+					}
+					if as, ok := st.(*ast.AssignStmt); ok && len(as.Lhs) == 1 && exprString(as.Lhs[0]) == "res[0]" {
+						break
+					}
+				}
+			}
+			if rel == "controller/builder.go" && fd.Name.Name == "doParse" {
+				consumer = translateConsumer(fd)
+			}
+			if strings.HasPrefix(rel, "controller/") {
+				if rt, ok := translateRoute(fd); ok {
+					routes = append(routes, rt)
+				}
+			}
+			if strings.HasPrefix(rel, "router/") {
+				ast.Inspect(fd.Body, func(n ast.Node) bool {
+					c, ok := n.(*ast.CallExpr)
+					if !ok || calleeName(c.Fun) != "Methods" || len(c.Args) != 1 {
+						return true
+					}
+					sel, ok := c.Fun.(*ast.SelectorExpr)
+					if !ok {
+						return true
+					}
+					hf, ok := sel.X.(*ast.CallExpr)
+					if !ok || calleeName(hf.Fun) != "HandleFunc" || len(hf.Args) != 2 {
+						return true
+					}
+					hc, ok := hf.Args[1].(*ast.CallExpr)
+					if !ok {
+						return true // a plain handler (health endpoints): no request pipeline
+					}
+					handler := calleeName(hc.Fun)
+					if handler == "ClickhousePushV2" {
+						handler = "PushV2" // var ClickhousePushV2 = PushV2
+					}
+					paths = append(paths, "("+q(strArg(c.Args[0]))+", "+q(strArg(hf.Args[0]))+", "+q(handler)+")")
+					return true
+				})
+			}
+		}
+		if rel == "service/impl/tempoInsertService.go" {
+			consS = consumedFields(f, "TempoSamples")
+			consA = consumedFields(f, "TempoTag")
+		}
+	}
+	b.WriteString("\n(* ---- model/IngestPipe.v ---- *)\n")
+	b.WriteString("(* every `go func(){..}()` of utils/unmarshal/builder.go as a program (enclosing function, program) *)\n")
+	b.WriteString("Definition gen_parser_programs : list (string * gprog) := [\n  " + strings.Join(progs, ";\n  ") + "].\n\n")
+	b.WriteString("Definition gen_tame_panic : list gsimple := " + tame + ".\n")
+	fmt.Fprintf(b, "Definition gen_tame_guarded : bool := %v.\n\n", tameGuarded)
+	b.WriteString("Definition gen_consumer : consumer := " + consumer + ".\n\n")
+	fmt.Fprintf(b, "Definition gen_on_span_cols : handler_prog := {|\n  hp_width_check := %v;\n  hp_once := [%s];\n  hp_loop := [%s];\n  hp_flush_resets := %v |}.\n",
+		h.width, strings.Join(h.once, "; "), strings.Join(h.loop, "; "), h.flush)
+	fmt.Fprintf(b, "Definition gen_on_span_unknown : Z := %d.\n", h.unknown)
+	b.WriteString("Definition gen_spans_fields : list string := " + strList(sliceFields(parsed, "TempoSamples")) + ".\n")
+	b.WriteString("Definition gen_attrs_fields : list string := " + strList(sliceFields(parsed, "TempoTag")) + ".\n")
+	b.WriteString("Definition gen_spans_consumed : list string := " + strList(consS) + ".\n")
+	b.WriteString("Definition gen_attrs_consumed : list string := " + strList(consA) + ".\n\n")
+	fmt.Fprintf(b, "Definition gen_ffa_guard : bool := %v.\n\n", ffaGuard)
+	b.WriteString("Definition gen_routes : list route := [\n")
+	for i, r := range routes {
+		sep := ";"
+		if i == len(routes)-1 {
+			sep = ""
+		}
+		fmt.Fprintf(b, "  {| rt_handler := %s; rt_pre := %s; rt_parsers := %s; rt_nested_pre := %s; rt_status := %d |}%s\n",
+			q(r.handler), strList(r.pre), pairList(r.parsers), pairList(r.nested), r.status, sep)
+	}
+	b.WriteString("].\n\n(* (method, path, controller constructor) of every route registered with a request pipeline *)\n")
+	b.WriteString("Definition gen_paths : list (string * string * string) := [\n  " + strings.Join(paths, ";\n  ") + "].\n")
 }
